@@ -51,18 +51,20 @@ func verifLexLegacySTRING(s string) int {
 	if len(s) == 0 || s[0] != '"' {
 		return -1
 	}
+	best := -1
 	i := 1
 	for i < len(s) {
 		if s[i] == '"' {
+			best = i + 1 // the literal may end here ...
 			if i+1 < len(s) && s[i+1] == '"' {
-				i += 2
+				i += 2 // ... or go on after a doubled quote
 				continue
 			}
-			return i + 1
+			return best
 		}
 		i++
 	}
-	return -1
+	return best
 }
 
 func verifToken(typ int, text string) antlr.Token {
